@@ -241,6 +241,12 @@ def check_split_node(s, nl, opt, res, case):
         res.fail('c18:split_at_node:extra-nodes:%s' % tag, 'parts contain nodes not in the list',
                  case)
         return
+    if not keep_sep and used_seps != len(parts) - 1:
+        res.fail('c18:split_at_node:separator-lost-without-split:%s' % tag,
+                 '%d separator node(s) are missing from the parts but only %d split(s) were made '
+                 '(max_split=%r): the unsplit remainder lost nodes' % (used_seps, len(parts) - 1,
+                                                                      max_split), case)
+        return
     if max_split is None and len(parts) != nsep + 1:
         res.fail('c18:split_at_node:part-count:%s' % tag,
                  '%d parts for %d separators' % (len(parts), nsep), case)
